@@ -322,6 +322,20 @@ func runWindow(sql string, rows []Row, ro runOpts) runResult {
 	res.Dels = rec.Deliveries()
 	res.Overloaded = rec.Overloaded()
 	res.Stats = s.GetStats()
+	if ctx := evCtx; ctx != nil {
+		var b strings.Builder
+		mid := 0
+		for _, d := range res.Dels {
+			fmt.Fprintf(&b, "%d,", d.Started)
+			if int(d.Started) < len(rows) {
+				mid++
+			}
+		}
+		ctx.Seen("emit_delivery_interleavings", b.String())
+		ctx.Count("observed.deliveries", int64(len(res.Dels)))
+		ctx.Count("observed.emit_calls", int64(len(rows)))
+		ctx.Count("observed.deliveries_while_producer_still_emitting", int64(mid))
+	}
 	return res
 }
 
